@@ -6,6 +6,16 @@ ROOT = os.path.dirname(os.path.dirname(os.path.abspath(__file__)))
 
 # id -> (category, technique, level text, level note, design ref)
 CHECKS = {
+ "C05": ("exploration",
+         "runtime monitor: differential against an independent iterative reference parser plus direct statement checks (depth-first flattening == genome order; k opens followed by exactly k blocks; no block elsewhere; conversion returns)",
+         "Every gene string up to length 9 (quick) / 11 (thorough) over {Close, literal(position), When, DupBlock, IfElse} is translated by the real code and compared with the reference parser and the statement's structural rules; random genomes up to length 5000 with skewed symbol mixes (all opens, all closes, trailing opens); nesting depth to 2000 on ordinary threads and 20000 on a 1 GiB thread. Exhaustive within the small scope, sampled beyond.",
+         "Literal genes carry their position so order is unambiguous; nesting beyond 20000 is bounded by the host stack and not judged.",
+         "DESIGN.md §4 C05"),
+ "C19": ("exploration",
+         "runtime monitor over generated code: a reference type-state automaton produces random legal builder call sequences that are compiled and run (built state vs automaton record) for PushState and four fixture structs; every call sequence up to a length bound is type-checked by one `cargo check --message-format=json` and rustc's accept/reject verdict per function is compared with what the statement requires",
+         "Run time: 400 (quick) / 3000 (thorough) random legal sequences incl. overflowing value lists, plus all declaration orders of up to 5 inputs, program order observed by running, an overflow boundary grid (capacity 0..5 x length 0..7 on every stack incl. the second values call), accessor consistency. Compile time: all sequences of up to 3 (quick) / 4 (thorough) calls + build() over a reduced alphabet for 5 structs (2.7e3 / 2.3e4 functions): must-compile sequences must be accepted, statement-named misuse (incomplete build, size change after data) must be rejected, everything else is recorded.",
+         "The compile-time clause is decided by observing rustc, flagged as such in DESIGN.md; fixtures with >=2 stacks use !has_stack (generated HasStack impls fail coherence outside the push crate).",
+         "DESIGN.md §4 C19"),
  "C01": ("exploration",
          "runtime monitor: differential against an independently written reference interpreter (set-valued where the statement is silent); instruction x boundary-state matrix, exhaustive boundary-operand sweeps, random nested programs and Plushy genomes run at step limits 0..T so every intermediate state of the real loop is compared",
          "Every instruction shape (88) is performed on the cross product of capacities {0,1,2,3,4,8} x fills {0,1,2,3,cap-1,cap} of each stack it touches with boundary operands (i64 extremes, NaN, infinities, signed zeros, subnormals), plus exhaustive pool^2 operand sweeps; 2.5e5 (quick) / 3.8e6 (thorough) random programs incl. Plushy-translated ones are run to completion under every step limit 0..T and compared state-for-state (all stacks, capacities, stdout, limit, input bindings) with the reference interpreter. Sampled, not exhaustive.",
